@@ -20,11 +20,13 @@ import time
 from typing import Any, Dict, List, Optional
 
 VERIF = os.path.dirname(os.path.dirname(os.path.abspath(__file__)))
-EVIDENCE_DIR = os.path.join(VERIF, "evidence")
-REPLAY_DIR = os.path.join(VERIF, "replays")
+_OUT = os.environ.get("HMC_OUT") or VERIF
+EVIDENCE_DIR = os.path.join(_OUT, "evidence")
+REPLAY_DIR = os.path.join(_OUT, "replays")
 FINDINGS_FILE = os.path.join(VERIF, "known_findings.json")
 EVIDENCE_SCHEMA = "/root/.vp/EVIDENCE.schema.json"
 
+REPO_ROOT = os.path.abspath(os.environ.get("HMC_REPO", "/repo"))
 EXIT_OK, EXIT_VIOLATION, EXIT_HARNESS = 0, 1, 2
 
 
@@ -71,12 +73,12 @@ def digest(obj: Any) -> bytes:
 
 def repo_rev() -> Dict[str, Any]:
     try:
-        head = subprocess.run(["git", "-C", "/repo", "rev-parse", "HEAD"], capture_output=True, text=True).stdout.strip()
-        dirty = bool(subprocess.run(["git", "-C", "/repo", "status", "--porcelain", "--untracked-files=no"],
+        head = subprocess.run(["git", "-C", REPO_ROOT, "rev-parse", "HEAD"], capture_output=True, text=True).stdout.strip()
+        dirty = bool(subprocess.run(["git", "-C", REPO_ROOT, "status", "--porcelain", "--untracked-files=no"],
                                     capture_output=True, text=True).stdout.strip())
     except Exception:  # pragma: no cover
         head, dirty = "unknown", False
-    return {"repo_head": head, "repo_dirty": dirty}
+    return {"repo_head": head, "repo_dirty": dirty, "repo_root": REPO_ROOT}
 
 
 class Run:
